@@ -103,6 +103,11 @@ def deep_chain(depth, with_missing):
 
 # programs with a hand-derived answer (the search order applied by hand); also compared with PanCore
 EXPECT = [
+    # names are whole texts: a non-ASCII name is a different property from the ASCII name whose bytes it matches modulo 256
+    ("non_ascii_names_are_not_ascii_names", 'base := {B: "inherited B", i: "inherited i"}\nchild := base.bear({a: 1})\n'
+     '[child["\u3042"], child["\u0169"], child.which("\u3042"), child.which("B") == base].p\n'
+     'o := {"\u3042": "hiragana a", B: "latin B", "\u0169": 1, i: 2}\n[o.B, o["\u3042"], o.i, o["\u0169"], o.keys(private?: true)].p\n%{"\u3042": 1, "B": 2}.len.p\n',
+     '[nil, nil, nil, true]\n["latin B", "hiragana a", 2, 1, ["B", "i", "\u0169", "\u3042"]]\n2\n'),
     # every receiver of a list chain is looked up along ITS OWN chain: a sibling without own properties after one that shadows the name
     ("siblings_in_list_chain", "P := {x: 0, f: m{.x}}\n[P.bear({x: 1}), P.bear]@x.p\n[P.bear, P.bear({x: 1})]@x.p\n[P.bear({x: 1}), P.bear, P.bear({x: 2}), P.bear]@x.p\n"
      "[P.bear({f: m{9}}), P.bear, P.bear({x: 4})]@f.p\na := P.bear({x: 5})\n[a, a.bro({}), a]@x.p\n[P.bear({x: 1}), P.bear]=@x.p\n[P.bear({x: 1}), P.bear]&@x.p\n"
